@@ -59,15 +59,16 @@ ATOL = 1e-11
 ALLCLOSE_ATOL = 1e-8     # np.allclose(x, 0) default absolute tolerance (Curve.binormal)
 RULE = ('integrate: orders 1..5, open / non-open / periodic (every continuity) bases, intervals = whole domain, knot to knot, '
         'span interiors, single points, reversed, partly or wholly outside (clamped; periodic: seam refusal); center: random '
-        'objects pardim 1-3, rational with positive weights, periodic directions; volume: random trivariate objects orders 2..4; '
-        'length: curves orders 2..5 dim 2-4 incl. rational/periodic, with t0/t1 = None, knots, span interiors, t0>t1; area: '
+        'objects pardim 1-3, rational with positive weights, periodic directions, unclamped / half-clamped non-periodic directions (basis functions reaching outside the domain; also in length/area/volume/representation changes); volume: random trivariate objects orders 2..4; '
+        'length: curves orders 2..5 dim 2-4 incl. rational/periodic, with t0/t1 = None, knots, span interiors, the value 0 strictly inside the domain, t0>t1; area: '
         'surfaces dim 2 and 3 (and 4: ValueError); curvature/torsion/binormal/normal: scalar, list and one-element list input, '
         'both sides at knots; representation changes on the real code: insert_knot, raise_order, split, reverse, swap, rotate+translate, '
         'mirror, scale (periodic directions are only refined/inserted/moved: reverse/raise/split of periodic directions belong to '
         'C05-C07); primitives: circle (both types), arc, disc, sphere, cylinder, torus (surfaces and solids).  distinct = distinct '
         'protocol lines; non-trivial = the call returns a value.')
 REQUIRED_TAGS = ['form=integrate', 'integrate:open', 'integrate:nonopen', 'integrate:periodic', 'integrate:seam-refusal',
-                 'integrate:clamped', 'integrate:p=1', 'form=center', 'center:rational', 'center:periodic', 'form=volume',
+                 'integrate:clamped', 'integrate:p=1', 'form=center', 'center:rational', 'center:periodic', 'center:non-open',
+                 'length:non-open', 'length:bound=0', 'area:non-open', 'volume:non-open', 'repind:non-open', 'form=volume',
                  'form=length', 'length:clipped', 'length:rational', 'length:periodic', 'length:empty', 'form=area', 'area:planar',
                  'area:3d', 'area:dim4-error', 'form=curvature', 'form=torsion', 'form=frenet', 'call=scalar', 'call=array',
                  'call=array1', 'repind:insert', 'repind:raise', 'repind:split', 'repind:reverse', 'repind:swap', 'repind:rigid',
@@ -160,6 +161,46 @@ def _refinable(o):
     return True
 
 
+def _unclamp_basis(rng, b, side):
+    """Spread the end knots of a clamped non-periodic basis (side: 'both', 'left', 'right'): the basis
+    functions then stick out of the parametric domain [knots[p-1], knots[-p]], which itself is
+    unchanged, as is the number of functions."""
+    p, kn = b['order'], list(b['knots'])
+    if b['periodic'] >= 0 or p < 2:
+        return b
+    h = rng.choice([0.25, 0.5, 1.0, 1.5])
+    for i in range(p - 1):
+        if side in ('both', 'left'):
+            kn[i] = kn[p - 1] - (p - 1 - i) * h * rng.choice([0.5, 1.0, 1.0, 2.0])
+        if side in ('both', 'right'):
+            kn[-1 - i] = kn[-p] + (p - 1 - i) * h * rng.choice([0.5, 1.0, 1.0, 2.0])
+    kn[:p] = sorted(kn[:p])
+    kn[-p:] = sorted(kn[-p:])
+    return {'order': p, 'knots': kn, 'periodic': -1}
+
+
+def _unclamp(rng, o):
+    """Make at least one non-periodic direction of an object spec unclamped or half-clamped."""
+    cand = [d for d, b in enumerate(o['bases']) if b['periodic'] < 0 and b['order'] >= 2]
+    if not cand:
+        return o
+    bases = list(o['bases'])
+    first = rng.choice(cand)
+    for d in cand:
+        if d == first or rng.random() < 0.4:
+            bases[d] = _unclamp_basis(rng, bases[d], rng.choice(['both', 'left', 'right']))
+    return {'bases': bases, 'cps': o['cps'], 'rational': o['rational']}
+
+
+def _non_open(o):
+    """Some non-periodic direction whose end knots have multiplicity < order."""
+    for b in o['bases']:
+        p, kn = b['order'], b['knots']
+        if b['periodic'] < 0 and not (all(x == kn[0] for x in kn[:p]) and all(x == kn[-1] for x in kn[-p:])):
+            return True
+    return False
+
+
 def _rand_obj(rng, pardim, continuous=False, **kw):
     kw.setdefault('pmin', 2)
     for _ in range(50):
@@ -174,7 +215,9 @@ def _gen_center(rng, tier, specs):
     for i in range(n):
         pardim = [1, 2, 3, 1, 2, 2][i % 6]
         o = gen.rand_object(rng, pardim=pardim, pmax=4 if pardim < 3 else 3, max_interior=2 if pardim < 3 else 1,
-                            rational=(i % 3 == 0))
+                            rational=(i % 3 == 0), periodic_prob=0.0 if i % 4 == 1 else 0.3, pmin=2 if i % 2 == 1 else 1)
+        if i % 2 == 1:
+            o = _unclamp(rng, o)
         specs.append({'form': 'center', 'obj': o})
 
 
@@ -183,6 +226,8 @@ def _gen_volume(rng, tier, specs):
     for i in range(n):
         o = _rand_obj(rng, 3, pmax=3 if tier == 'quick' else 4, max_interior=1, rational=(i % 4 == 3),
                       periodic_prob=0.15)
+        if i % 3 == 1:
+            o = _unclamp(rng, o)
         specs.append({'form': 'volume', 'obj': _well_oriented(rng, o)})
 
 
@@ -206,11 +251,21 @@ def _gen_length(rng, tier, specs):
     for i in range(n):
         dim = [2, 3, 3, 2, 4][i % 5]
         o = _rand_obj(rng, 1, dim=dim, pmax=5, max_interior=3, rational=(i % 3 == 1), periodic_prob=0.3)
+        if i % 4 == 2:
+            o = _unclamp(rng, o)
         info = gen.basis_info(o['bases'][0])
         a, e = info['start'], info['end']
         ks = [x for x in gen.distinct_knots(o['bases'][0]) if a <= x <= e]
         specs.append({'form': 'length', 'obj': o, 't0': None, 't1': None})
         r = i % 6
+        if i % 3 == 0:
+            # a bound exactly equal to the parameter value 0 strictly inside the domain (0 is falsy in Python)
+            c = rng.choice(ks[1:-1]) if len(ks) > 2 and rng.random() < 0.5 else _interior(rng, ks[0], ks[-1])
+            b0 = o['bases'][0]
+            oz = {'bases': [{'order': b0['order'], 'knots': [x - c for x in b0['knots']], 'periodic': b0['periodic']}],
+                  'cps': o['cps'], 'rational': o['rational']}
+            t0z, t1z = [(0.0, None), (None, 0.0), (0.0, ks[-1] - c), (ks[0] - c, 0.0)][(i // 3) % 4]
+            specs.append({'form': 'length', 'obj': oz, 't0': t0z, 't1': t1z})
         if r == 0:
             specs.append({'form': 'length', 'obj': o, 't0': _interior(rng, ks[0], ks[1]), 't1': _interior(rng, ks[-2], ks[-1])})
         elif r == 1:
@@ -235,6 +290,8 @@ def _gen_area(rng, tier, specs):
         dim = [2, 3, 3, 2, 3, 2, 3, 4][i % 8]
         o = _rand_obj(rng, 2, dim=dim, pmax=4 if tier == 'thorough' else 3, max_interior=2, rational=(i % 3 == 2),
                       periodic_prob=0.25)
+        if i % 4 == 1:
+            o = _unclamp(rng, o)
         specs.append({'form': 'area', 'obj': _well_oriented(rng, o) if dim == 2 else o})
 
 
@@ -303,6 +360,8 @@ def _gen_repind(rng, tier, specs):
         o = _rand_obj(rng, pardim, continuous=(op == 'raise'), dim=dim, pmax=4 if pardim < 3 else 3,
                       max_interior=2 if pardim < 3 else 1, rational=(rng.random() < 0.35),
                       periodic_prob=0.25 if periodic_ok else 0.0)
+        if (i // len(REP_OPS)) % 3 == 1 and op != 'raise':
+            o = _unclamp(rng, o)
         if pardim == 3 or (pardim == 2 and dim == 2):
             o = _well_oriented(rng, o)
         d = rng.randrange(pardim)
@@ -926,9 +985,20 @@ def _oracle_center(sp, s):
     o = gen.mk_object(sp, s['obj'])
     got = o.center()
     want = exact_center(s['obj'])
+    fails = []
     if not exact.close(got, want, RTOL, 1e-10):
-        return ['center %r differs from the exact (projective) integral mean %r' % (got.tolist(), [float(x) for x in want])]
-    return []
+        fails.append('center %r differs from the exact (projective) integral mean %r' % (got.tolist(), [float(x) for x in want]))
+    # translation covariance: center(obj + v) = center(obj) + v  (the weights add up to the parametric size)
+    v = np.array([10.0, -20.0, 5.0, 2.5][:o.dimension])
+    moved = o.clone().translate(v).center()
+    if np.max(np.abs(moved - (got + v))) > 1e-9 * max(1.0, float(np.max(np.abs(got + v)))):
+        fails.append('center is not translation covariant: center(obj+v) = %r, center(obj)+v = %r' % (moved.tolist(), (got + v).tolist()))
+    # the weights themselves: per direction, the integrals over the domain add up to its length
+    for d, b in enumerate(o.bases):
+        w = b.integrate(b.start(), b.end())
+        if abs(float(np.sum(w)) - (b.end() - b.start())) > 1e-9 * max(1.0, abs(b.end() - b.start())):
+            fails.append('basis integrals of direction %d add up to %r, domain length %r' % (d, float(np.sum(w)), b.end() - b.start()))
+    return fails
 
 
 def _oracle_measure(sp, s, o=None):
@@ -1348,6 +1418,8 @@ def tags(s, res):
     o = s['obj']
     out.append('pardim=%d' % len(o['bases']))
     per = any(b['periodic'] >= 0 for b in o['bases'])
+    if f in ('center', 'length', 'area', 'volume', 'repind') and _non_open(o):
+        out.append(f + ':non-open')
     if f == 'center':
         if o['rational']:
             out.append('center:rational')
@@ -1362,6 +1434,8 @@ def tags(s, res):
             out.append('length:periodic')
         if s['t0'] is not None and s['t1'] is not None and s['t0'] > s['t1']:
             out.append('length:empty')
+        if s['t0'] == 0 or s['t1'] == 0:
+            out.append('length:bound=0')
     if f == 'area':
         d = _dim(o)
         out.append({2: 'area:planar', 3: 'area:3d'}.get(d, 'area:dim4-error'))
